@@ -186,12 +186,24 @@ pub open spec fn ratios_ok(txs: Seq<GbpTransaction>) -> bool {
     forall|i: int| 0 <= i < txs.len() ==> (((#[trigger] txs[i]).operation is Split ==> txs[i].operation->Split_ratio.v() > 0real)
         && (txs[i].operation is Unsplit ==> txs[i].operation->Unsplit_ratio.v() >= 0real))
 }
+/// SPLIT / UNSPLIT lines of the sold security dated ON the disposal day: Matcher::process applies a day's corporate actions
+/// after that day's disposals, so they intervene between the disposal and every later acquisition, wherever they are listed
+pub open spec fn day_factor(txs: Seq<GbpTransaction>, sell_idx: int, n: int, c0: real) -> real
+    decreases n
+{
+    if n <= 0 || n > txs.len() || sell_idx < 0 || sell_idx >= txs.len() { c0 } else {
+        let c = day_factor(txs, sell_idx, n - 1, c0);
+        let tx = txs[n - 1];
+        if tx.ticker@ == txs[sell_idx].ticker@ && tx.date.d() == txs[sell_idx].date.d() { ratio_effect(tx, c) } else { c }
+    }
+}
 /// C10 / C01.split_rescale: the factor that converts a share count at the sale into the units current at index `hi`:
-/// SPLIT and UNSPLIT lines of the SAME security dated inside the 30-day window after the sale, between the two lines, compose in order
+/// the disposal day's own corporate actions, then SPLIT and UNSPLIT lines of the SAME security dated inside the 30-day
+/// window after the sale, between the two lines, compose in order
 pub open spec fn split_factor(txs: Seq<GbpTransaction>, sell_idx: int, hi: int) -> real
     decreases hi
 {
-    if hi <= sell_idx + 1 || hi > txs.len() || sell_idx < 0 { 1real } else {
+    if hi <= sell_idx + 1 || hi > txs.len() || sell_idx < 0 { day_factor(txs, sell_idx, txs.len() as int, 1real) } else {
         let c = split_factor(txs, sell_idx, hi - 1);
         let tx = txs[hi - 1];
         if tx.ticker@ == txs[sell_idx].ticker@ && in_bnb_window(txs[sell_idx].date.d(), tx.date.d()) { ratio_effect(tx, c) } else { c }
